@@ -31,7 +31,7 @@ package l1infotreesync
 //@   ensures l1LastBlockScanFaults == old(l1LastBlockScanFaults) + ite(result != nil && !isErr(result, sql.ErrNoRows), 1, 0)
 //@   ensures result == nil ==> *cast(dest[0], *uint64) == l1LastProcessed
 //@   ensures (result != nil && isErr(result, sql.ErrNoRows)) ==> l1LastProcessed == 0
-//@ func (p *processor) getLastProcessedBlockWithTx
+//@ func (p *processor) getLastProcessedBlockWithTx (p, tx)
 //@   props C05 C15
 //@   requires tx != nil
 //@   sqltext "SELECT num FROM BLOCK ORDER BY num DESC LIMIT 1;"
@@ -43,7 +43,7 @@ package l1infotreesync
 //@   modifies *cast(dst, *L1InfoTreeLeaf)
 //@   ensures result == nil ==> cast(dst, *L1InfoTreeLeaf).BlockNumber <= unbox(args[0], uint64)
 
-//@ func (p *processor) GetLatestInfoUntilBlock
+//@ func (p *processor) GetLatestInfoUntilBlock (p, ctx, blockNum)
 //@   props C15
 //@   sqltext "SELECT * FROM l1info_leaf WHERE block_num <= $1 ORDER BY block_num DESC, block_pos DESC LIMIT 1;"
 //@   requires p != nil && p.db != nil && p.log != nil
@@ -58,13 +58,13 @@ package l1infotreesync
 //   leaf           = keccak256(globalExitRoot ‖ blockhash(block.number - 1) ‖ uint64(block.timestamp))
 //@ spec fn l1LeafValue(mer Hash, rer Hash, prevBlockHash Hash, timestamp int) Hash = keccak(catB(catB(catB(emptyB(), bytesOf(hb(H(mer, rer)), 32)), bytesOf(hb(prevBlockHash), 32)), beNB(timestamp, 8)))
 
-//@ func (l *L1InfoTreeLeaf) GetGlobalExitRoot
+//@ func (l *L1InfoTreeLeaf) GetGlobalExitRoot (l)
 //@   props C11 C09
 //@   requires l != nil
 //@   modifies nothing
 //@   ensures[ger] result == H(l.MainnetExitRoot, l.RollupExitRoot)
 
-//@ func (l *L1InfoTreeLeaf) GetHash
+//@ func (l *L1InfoTreeLeaf) GetHash (l)
 //@   props C11
 //@   requires l != nil
 //@   modifies nothing
@@ -73,7 +73,7 @@ package l1infotreesync
 // ---- verified batches -> rollup exit tree (C11): a zero exit root is ignored, an exit root equal to the rollup's
 // current leaf (read inside the open transaction, under the tree's last root) is ignored, anything else is written at
 // position rollupID-1 and recorded together with the resulting rollup exit root.
-//@ func (p *processor) isNewValueForRollupExitTree
+//@ func (p *processor) isNewValueForRollupExitTree (p, tx, event)
 //@   props C11
 //@   requires p != nil && p.rollupExitTree != nil && p.rollupExitTree.Tree != nil && event != nil
 //@   modifies nothing
@@ -89,7 +89,7 @@ package l1infotreesync
 //@   modifies stmtFail
 //@   ensures stmtFail == old(stmtFail) + ite(result == nil, 0, 1)
 
-//@ func (p *processor) processVerifyBatches
+//@ func (p *processor) processVerifyBatches (p, tx, blockNumber, event)
 //@   props C11
 //@   requires p != nil && p.rollupExitTree != nil && p.rollupExitTree.Tree != nil && len(p.rollupExitTree.zeroHashes) == 33
 //@   requires rhtOK(rhtHas(p.rollupExitTree.Tree), rhtL(p.rollupExitTree.Tree), rhtR(p.rollupExitTree.Tree))
@@ -103,7 +103,7 @@ package l1infotreesync
 
 // ---- reorg of the L1 info tree store (C04, C14): one transaction deletes the blocks from the first reorged one on
 // (the event tables follow by ON DELETE CASCADE, assumed A5) and the versions of both trees recorded from that block on
-//@ func (p *processor) Reorg
+//@ func (p *processor) Reorg (p, ctx, firstReorgedBlock)
 //@   props C04 C14
 //@   sqltext "DELETE FROM block WHERE num >= $1;"
 //@   requires p != nil && p.db != nil && p.log != nil && p.l1InfoTree != nil && p.l1InfoTree.Tree != nil && p.rollupExitTree != nil && p.rollupExitTree.Tree != nil && p.l1InfoTree.Tree != p.rollupExitTree.Tree
@@ -132,7 +132,7 @@ package l1infotreesync
 //@   ensures result == nil ==> l1LastIndex >= 0 && *cast(dest[0], *uint32) == l1LastIndex
 //@   ensures (result != nil && isErr(result, sql.ErrNoRows)) ==> l1LastIndex == -1
 //@   ensures (result != nil && !isErr(result, sql.ErrNoRows)) ==> !isErr(result, errvar("db.ErrNotFound"))
-//@ func (p *processor) getLastIndex
+//@ func (p *processor) getLastIndex (p, tx)
 //@   props C11
 //@   sqltext "SELECT position FROM l1info_leaf ORDER BY block_num DESC, block_pos DESC LIMIT 1;"
 //@   requires tx != nil
@@ -140,7 +140,7 @@ package l1infotreesync
 //@   ensures[the-last-position] result1 == nil ==> result0 == l1LastIndex && l1LastIndex >= 0
 //@   ensures[not-found-means-no-leaf] (result1 != nil && isErr(result1, db.ErrNotFound)) ==> l1LastIndex == -1
 
-//@ func processEventInitL1InfoRootMap
+//@ func processEventInitL1InfoRootMap (tx, blockNumber, event)
 //@   trusted
 //@   modifies stmtFail
 //@   ensures stmtFail == old(stmtFail) + ite(result == nil, 0, 1)
@@ -149,7 +149,7 @@ package l1infotreesync
 //@   modifies stmtFail
 //@   ensures stmtFail == old(stmtFail) + ite(result == nil, 0, 1)
 
-//@ func (p *processor) ProcessBlock
+//@ func (p *processor) ProcessBlock (p, ctx, block)
 //@   props C07 C14 C11
 //@   sqltext "INSERT INTO block (num, hash) VALUES ($1, $2)"
 //@   requires p != nil && p.db != nil && p.log != nil && p.l1InfoTree != nil && p.l1InfoTree.Tree != nil && len(p.l1InfoTree.zeroHashes) == 33 && p.rollupExitTree != nil && p.rollupExitTree.Tree != nil && len(p.rollupExitTree.zeroHashes) == 33 && p.l1InfoTree.Tree != p.rollupExitTree.Tree
@@ -187,7 +187,7 @@ package l1infotreesync
 //@   ensures result != errvar("db.ErrNotFound") && ((result != nil && !isErr(result, sql.ErrNoRows)) ==> !isErr(result, errvar("db.ErrNotFound")))
 //@   ensures l1LookupNoRows == (result != nil && isErr(result, sql.ErrNoRows))
 //@   ensures result == nil ==> cast(dst, *L1InfoTreeLeaf).GlobalExitRoot == caller.ger
-//@ func (p *processor) GetInfoByGlobalExitRoot
+//@ func (p *processor) GetInfoByGlobalExitRoot (p, ger)
 //@   props C09 C12
 //@   sqltext "SELECT * FROM l1info_leaf WHERE global_exit_root = $1 LIMIT 1;"
 //@   requires p != nil
@@ -197,7 +197,7 @@ package l1infotreesync
 //@   ensures[a-leaf-carrying-that-global-exit-root] result1 == nil ==> result0 != nil && result0.GlobalExitRoot == ger
 //@   ensures[not-found-only-when-the-statement-found-no-row] (result1 != nil && isErr(result1, db.ErrNotFound)) == l1LookupNoRows
 //@   assert call:QueryRow arg0 == p.db
-//@ func (p *processor) getInfoByIndexWithTx
+//@ func (p *processor) getInfoByIndexWithTx (p, tx, index)
 //@   props C09 C11 C12
 //@   trusted
 //@   modifies nothing
@@ -208,7 +208,7 @@ package l1infotreesync
 //@   ensures result != errvar("db.ErrNotFound") && ((result != nil && !isErr(result, sql.ErrNoRows)) ==> !isErr(result, errvar("db.ErrNotFound")))
 //@   ensures l1LookupNoRows == (result != nil && isErr(result, sql.ErrNoRows))
 //@   ensures result == nil ==> true
-//@ func (p *processor) GetLastInfo
+//@ func (p *processor) GetLastInfo (p)
 //@   props C11 C12
 //@   sqltext "SELECT * FROM l1info_leaf ORDER BY block_num DESC, block_pos DESC LIMIT 1;"
 //@   requires p != nil
@@ -224,7 +224,7 @@ package l1infotreesync
 //@   ensures result != errvar("db.ErrNotFound") && ((result != nil && !isErr(result, sql.ErrNoRows)) ==> !isErr(result, errvar("db.ErrNotFound")))
 //@   ensures l1LookupNoRows == (result != nil && isErr(result, sql.ErrNoRows))
 //@   ensures result == nil ==> true
-//@ func (p *processor) GetFirstInfo
+//@ func (p *processor) GetFirstInfo (p)
 //@   props C12
 //@   sqltext "SELECT * FROM l1info_leaf ORDER BY block_num ASC, block_pos ASC LIMIT 1;"
 //@   requires p != nil
@@ -240,7 +240,7 @@ package l1infotreesync
 //@   ensures result != errvar("db.ErrNotFound") && ((result != nil && !isErr(result, sql.ErrNoRows)) ==> !isErr(result, errvar("db.ErrNotFound")))
 //@   ensures l1LookupNoRows == (result != nil && isErr(result, sql.ErrNoRows))
 //@   ensures result == nil ==> cast(dst, *L1InfoTreeLeaf).BlockNumber >= caller.blockNum
-//@ func (p *processor) GetFirstInfoAfterBlock
+//@ func (p *processor) GetFirstInfoAfterBlock (p, blockNum)
 //@   props C12
 //@   sqltext "SELECT * FROM l1info_leaf WHERE block_num >= $1 ORDER BY block_num ASC, block_pos ASC LIMIT 1;"
 //@   requires p != nil
@@ -256,7 +256,7 @@ package l1infotreesync
 //@   ensures result != errvar("db.ErrNotFound") && ((result != nil && !isErr(result, sql.ErrNoRows)) ==> !isErr(result, errvar("db.ErrNotFound")))
 //@   ensures l1LookupNoRows == (result != nil && isErr(result, sql.ErrNoRows))
 //@   ensures result == nil ==> cast(dst, *L1InfoTreeLeaf).RollupExitRoot == caller.rollupExitRoot
-//@ func (p *processor) GetFirstL1InfoWithRollupExitRoot
+//@ func (p *processor) GetFirstL1InfoWithRollupExitRoot (p, rollupExitRoot)
 //@   props C12
 //@   sqltext "SELECT * FROM l1info_leaf WHERE rollup_exit_root = $1 ORDER BY block_num ASC, block_pos ASC LIMIT 1;"
 //@   requires p != nil
@@ -272,7 +272,7 @@ package l1infotreesync
 //@   ensures result != errvar("db.ErrNotFound") && ((result != nil && !isErr(result, sql.ErrNoRows)) ==> !isErr(result, errvar("db.ErrNotFound")))
 //@   ensures l1LookupNoRows == (result != nil && isErr(result, sql.ErrNoRows))
 //@   ensures result == nil ==> cast(dst, *VerifyBatches).RollupID == caller.rollupID
-//@ func (p *processor) GetLastVerifiedBatches
+//@ func (p *processor) GetLastVerifiedBatches (p, rollupID)
 //@   props C12
 //@   sqltext "SELECT * FROM verify_batches WHERE rollup_id = $1 ORDER BY block_num DESC, block_pos DESC LIMIT 1;"
 //@   requires p != nil
@@ -288,7 +288,7 @@ package l1infotreesync
 //@   ensures result != errvar("db.ErrNotFound") && ((result != nil && !isErr(result, sql.ErrNoRows)) ==> !isErr(result, errvar("db.ErrNotFound")))
 //@   ensures l1LookupNoRows == (result != nil && isErr(result, sql.ErrNoRows))
 //@   ensures result == nil ==> cast(dst, *VerifyBatches).RollupID == caller.rollupID
-//@ func (p *processor) GetFirstVerifiedBatches
+//@ func (p *processor) GetFirstVerifiedBatches (p, rollupID)
 //@   props C12
 //@   sqltext "SELECT * FROM verify_batches WHERE rollup_id = $1 ORDER BY block_num ASC, block_pos ASC LIMIT 1;"
 //@   requires p != nil
@@ -304,7 +304,7 @@ package l1infotreesync
 //@   ensures result != errvar("db.ErrNotFound") && ((result != nil && !isErr(result, sql.ErrNoRows)) ==> !isErr(result, errvar("db.ErrNotFound")))
 //@   ensures l1LookupNoRows == (result != nil && isErr(result, sql.ErrNoRows))
 //@   ensures result == nil ==> cast(dst, *VerifyBatches).RollupID == caller.rollupID && cast(dst, *VerifyBatches).BlockNumber >= caller.blockNum
-//@ func (p *processor) GetFirstVerifiedBatchesAfterBlock
+//@ func (p *processor) GetFirstVerifiedBatchesAfterBlock (p, rollupID, blockNum)
 //@   props C12
 //@   sqltext "SELECT * FROM verify_batches WHERE rollup_id = $1 AND block_num >= $2 ORDER BY block_num ASC, block_pos ASC LIMIT 1;"
 //@   requires p != nil
@@ -314,7 +314,7 @@ package l1infotreesync
 //@   ensures[a-verification-of-that-rollup-at-or-after-that-block] result1 == nil ==> result0 != nil && result0.RollupID == rollupID && result0.BlockNumber >= blockNum
 //@   ensures[not-found-only-when-the-statement-found-no-row] (result1 != nil && isErr(result1, db.ErrNotFound)) == l1LookupNoRows
 //@   assert call:QueryRow arg0 == p.db
-//@ func (p *processor) GetProcessedBlockUntil
+//@ func (p *processor) GetProcessedBlockUntil (p, ctx, blockNum)
 //@   props C09 C15
 //@   trusted
 //@   modifies nothing
@@ -340,7 +340,7 @@ package l1infotreesync
 //@   ensures result1 != nil ==> result0 == nil
 //@   ensures result1 == nil ==> result0 != nil && parsedVerifyTA == result0
 
-//@ func buildAppender$2
+//@ func buildAppender$2 (b, l)
 //@   props C11 C05
 //@   requires b != nil && ger != nil
 //@   modifies b.Events, parsedUpdate
@@ -348,7 +348,7 @@ package l1infotreesync
 //@   ensures[one-event-per-log] result == nil ==> len(b.Events) == old(len(b.Events)) + 1 && forall(k, 0, old(len(b.Events)), b.Events[k] == old(b.Events[k]))
 //@   ensures[the-update-carries-the-logs-roots-and-the-blocks-parent-and-time] result == nil ==> typeIs(b.Events[len(b.Events) - 1], Event) && unbox(b.Events[len(b.Events) - 1], Event).UpdateL1InfoTree != nil && unbox(b.Events[len(b.Events) - 1], Event).VerifyBatches == nil && unbox(b.Events[len(b.Events) - 1], Event).UpdateL1InfoTree.BlockPosition == l.Index && unbox(b.Events[len(b.Events) - 1], Event).UpdateL1InfoTree.MainnetExitRoot == hashOf(parsedUpdate.MainnetExitRoot) && unbox(b.Events[len(b.Events) - 1], Event).UpdateL1InfoTree.RollupExitRoot == hashOf(parsedUpdate.RollupExitRoot) && unbox(b.Events[len(b.Events) - 1], Event).UpdateL1InfoTree.ParentHash == b.ParentHash && unbox(b.Events[len(b.Events) - 1], Event).UpdateL1InfoTree.Timestamp == b.Timestamp
 
-//@ func buildAppender$4
+//@ func buildAppender$4 (b, l)
 //@   props C11 C05
 //@   requires b != nil && rm != nil
 //@   modifies b.Events, parsedVerify
@@ -356,7 +356,7 @@ package l1infotreesync
 //@   ensures[one-event-per-log] result == nil ==> len(b.Events) == old(len(b.Events)) + 1 && forall(k, 0, old(len(b.Events)), b.Events[k] == old(b.Events[k]))
 //@   ensures[the-verification-carries-the-logs-rollup-and-exit-root] result == nil ==> typeIs(b.Events[len(b.Events) - 1], Event) && unbox(b.Events[len(b.Events) - 1], Event).VerifyBatches != nil && unbox(b.Events[len(b.Events) - 1], Event).UpdateL1InfoTree == nil && unbox(b.Events[len(b.Events) - 1], Event).VerifyBatches.BlockPosition == l.Index && unbox(b.Events[len(b.Events) - 1], Event).VerifyBatches.RollupID == parsedVerify.RollupID && unbox(b.Events[len(b.Events) - 1], Event).VerifyBatches.NumBatch == parsedVerify.NumBatch && unbox(b.Events[len(b.Events) - 1], Event).VerifyBatches.ExitRoot == hashOf(parsedVerify.ExitRoot)
 
-//@ func buildAppender$5
+//@ func buildAppender$5 (b, l)
 //@   props C11 C05
 //@   requires b != nil && rm != nil
 //@   modifies b.Events, parsedVerifyTA
@@ -367,28 +367,28 @@ package l1infotreesync
 // ---- proofs served by the syncer's entry points (C08, C09, C12; their fail-stop behaviour is the schema above): each
 // asks the right tree for the right position - the rollup exit tree keeps network n at position n-1 and the mainnet
 // (network 0) has no place in it - and passes the tree's answer through
-//@ func (s *L1InfoTreeSync) GetRollupExitTreeMerkleProof
+//@ func (s *L1InfoTreeSync) GetRollupExitTreeMerkleProof (s, ctx, networkID, root)
 //@   props C08 C12
 //@   requires s != nil && s.processor != nil && s.processor.rollupExitTree != nil && s.processor.rollupExitTree.Tree != nil && len(s.processor.rollupExitTree.Tree.zeroHashes) == 33
 //@   ensures[mainnet-has-no-position] (!old(s.processor.halted) && networkID == 0) ==> result1 == nil
 //@   assert call:GetProof arg0 == s.processor.rollupExitTree.Tree && arg2 + 1 == networkID && arg3 == root
 // the local exit root the claim endpoint proves an L2 bridge against (C12): the leaf the rollup exit tree holds for
 // that network (position network-1) *under the rollup exit root asked for* - not a later or earlier verification's
-//@ func (s *L1InfoTreeSync) GetLocalExitRoot
+//@ func (s *L1InfoTreeSync) GetLocalExitRoot (s, ctx, networkID, rollupExitRoot)
 //@   props C08 C12
 //@   requires s != nil && s.processor != nil && s.processor.rollupExitTree != nil && s.processor.rollupExitTree.Tree != nil
 //@   modifies nothing
 //@   ensures[mainnet-has-no-position] (!old(s.processor.halted) && networkID == 0) ==> result1 != nil
 //@   ensures[the-leaf-of-that-network-under-that-root] (!old(s.processor.halted) && result1 == nil) ==> networkID != 0 && result0 == desc(rhtL(s.processor.rollupExitTree.Tree), rhtR(s.processor.rollupExitTree.Tree), rollupExitRoot, uint32(networkID - 1), 0)
 //@   assert call:GetLeaf arg0 == s.processor.rollupExitTree.Tree && arg2 + 1 == networkID && arg3 == rollupExitRoot
-//@ func (s *L1InfoTreeSync) GetL1InfoTreeMerkleProofFromIndexToRoot
+//@ func (s *L1InfoTreeSync) GetL1InfoTreeMerkleProofFromIndexToRoot (s, ctx, index, root)
 //@   props C08 C09 C12
 //@   requires s != nil && s.processor != nil && s.processor.l1InfoTree != nil && s.processor.l1InfoTree.Tree != nil && len(s.processor.l1InfoTree.Tree.zeroHashes) == 33
 //@   ensures[proof-of-that-index-to-that-root] (!old(s.processor.halted) && result1 == nil && forall(h, 1, 33, rhtHas(s.processor.l1InfoTree.Tree)[desc(rhtL(s.processor.l1InfoTree.Tree), rhtR(s.processor.l1InfoTree.Tree), root, index, h)])) ==> foldUp(desc(rhtL(s.processor.l1InfoTree.Tree), rhtR(s.processor.l1InfoTree.Tree), root, index, 0), result0, index, 32) == root
 
 // the proof of a leaf to the root that was current when that leaf was added (C08, C12): the root is looked up by the
 // leaf's index and the proof is asked for exactly that index and that root's hash
-//@ func (p *processor) GetL1InfoTreeMerkleProof
+//@ func (p *processor) GetL1InfoTreeMerkleProof (p, ctx, index)
 //@   props C08 C12
 //@   requires p != nil && p.l1InfoTree != nil && p.l1InfoTree.Tree != nil && len(p.l1InfoTree.Tree.zeroHashes) == 33
 //@   assert call:GetRootByIndex arg0 == p.l1InfoTree.Tree && arg2 == index
